@@ -26,7 +26,9 @@ META = {
                   "not a verdict). Lifecycle ids are compared up to an injective renaming built by TLC. Sorted pipelines are "
                   "only checked for permutation (the order is C10's claim; the sorter reads the lifecycle table while the "
                   "detector still updates it). Termination is observed with a 120 s bound after eos/drop and a 300 s bound on "
-                  "any single receive. Long stalls: a few cases per run hold the producer (2.6-3.5 s, thorough also 6 s) or the "
+                  "any single receive. Every run also follows the lifecycle table incrementally by refresh index (the remote.rs "
+                  "rule) from the consumer and from a separate thread; the folded view must equal the final table for the ids of "
+                  "the final table (judged in complete runs only, not after a consumer drop). Long stalls: a few cases per run hold the producer (2.6-3.5 s, thorough also 6 s) or the "
                   "consumer (2.6-3.2 s) once at a chosen index; a stage time-out longer than that is not exercised. Streams are clean boots (monotone reception times, sane timestamps): detector corner "
                   "cases are C05's; a case whose reference run itself fails is skipped and counted.",
 }
@@ -114,6 +116,17 @@ def binding_selftest(ctx, cases, accepted):
             t2 = [dict(x) for x in evs[ti]["t"]]
             t2[0]["nr"] += 1
             v = list(evs); v[ti] = dict(evs[ti], t=t2); add("table-changed", v)
+        fi = [i for i, e in enumerate(evs) if e["ev"] == "lc_fold"]
+        if fi and evs[fi[0]]["fold"]:
+            f2 = [dict(x) for x in evs[fi[0]]["fold"]]
+            f2[-1]["nr"] -= 1                                   # the observer ended with a stale entry
+            v = list(evs); v[fi[0]] = dict(evs[fi[0]], fold=f2); add("stale-fold", v)
+            v = list(evs); del v[fi[0]]; add("fold-missing", v)
+        pi = [i for i, e in enumerate(evs) if e["ev"] == "lc_polls"]
+        if pi and evs[pi[0]]["seq"]:
+            q2 = [dict(x) for x in evs[pi[0]]["seq"]]
+            q2.append({"idx": q2[-1]["idx"], "h": (q2[-1]["h"] + 1) % 2147483647})   # a different content under the same index
+            v = list(evs); v[pi[0]] = dict(evs[pi[0]], seq=q2); add("same-index-other-content", v)
         lcs = sorted({evs[i]["lc"] for i in r})
         if len(lcs) >= 2:
             j = [i for i in r if evs[i]["lc"] == lcs[1]][0]
@@ -147,6 +160,8 @@ def check(ctx):
     nlong = 10 if quick else 24     # one long (2.6-3.5 s, thorough also 6 s) producer / consumer stall each; one per shard in quick
     # (a) model checking: safety for every capacity vector / interleaving, liveness with and without consumer drop
     c.tlc_must_pass(ctx, "design", "mc/MCPipeline.tla", "Pipeline_quick.cfg", timeout=3000)
+    # publishes / refresh index with a table observer polling at arbitrary points (PublishIdxMonotone, FoldUpToDate)
+    c.tlc_must_pass(ctx, "design-observer", "mc/MCPipeline.tla", "Pipeline_obs.cfg", timeout=3000)
     if not quick:
         c.tlc_must_pass(ctx, "design-lf6", "mc/MCPipeline.tla", "Pipeline_lf.cfg", timeout=3000)
         c.tlc_must_pass(ctx, "design-lfs5", "mc/MCPipeline.tla", "Pipeline_lfs5.cfg", timeout=3000)
@@ -170,7 +185,8 @@ def check(ctx):
     st = {"sorted": 0, "unsorted": 0, "drop_start": 0, "drop_middle": 0, "drop_end": 0, "no_drop": 0, "caps_used": {},
           "stage_sets": {}, "remote_wiring": 0, "cap0_or_1_with_full": 0, "recv_events": 0, "max_n_in": 0,
           "long_producer_stall_with_filter": 0, "long_producer_stall_without_filter": 0, "long_producer_stall_with_sort": 0,
-          "long_producer_stall_while_lc_buffers": 0, "long_consumer_stall": 0, "max_producer_stall_ms": 0, "max_consumer_stall_ms": 0}
+          "long_producer_stall_while_lc_buffers": 0, "long_consumer_stall": 0, "max_producer_stall_ms": 0, "max_consumer_stall_ms": 0,
+          "lc_fold_events": 0, "observer_polls": 0, "cases_late_ecu_complete": 0, "cases_with_3_or_more_table_versions_seen": 0}
     for k, evs in cases.items():
         h = evs[0]["hdr"]
         fh = sum(e["n"] for e in evs if e["ev"] == "full_hits")
@@ -178,6 +194,11 @@ def check(ctx):
         nrecv = sum(1 for e in evs if e["ev"] == "recv")
         st["recv_events"] += nrecv
         st["max_n_in"] = max(st["max_n_in"], h["n_in"])
+        folds = [e for e in evs if e["ev"] == "lc_fold"]
+        st["lc_fold_events"] += len(folds)
+        st["observer_polls"] += sum(e["polls"] for e in folds)
+        st["cases_late_ecu_complete"] += 1 if (folds and h.get("late_ecu")) else 0
+        st["cases_with_3_or_more_table_versions_seen"] += 1 if any(e["ev"] == "lc_polls" and len(e["seq"]) >= 3 for e in evs) else 0
         st["max_producer_stall_ms"] = max(st["max_producer_stall_ms"], h["max_p_stall_ms"])
         st["max_consumer_stall_ms"] = max(st["max_consumer_stall_ms"], h["max_c_stall_ms"])
         if h["max_p_stall_ms"] >= 2500:
@@ -218,7 +239,8 @@ def check(ctx):
         if not tot["hung"] and (st["drop_start"] == 0 or st["drop_middle"] == 0 or st["drop_end"] == 0 or st["sorted"] == 0 or st["unsorted"] == 0):
             raise c.ToolError("vacuous run: missing path %s" % st)
         for k in ("long_producer_stall_with_filter", "long_producer_stall_without_filter", "long_producer_stall_with_sort",
-                  "long_producer_stall_while_lc_buffers", "long_consumer_stall"):
+                  "long_producer_stall_while_lc_buffers", "long_consumer_stall", "lc_fold_events", "cases_late_ecu_complete",
+                  "cases_with_3_or_more_table_versions_seen"):
             if st[k] == 0:
                 raise c.ToolError("vacuous run: no case with path %s (%s)" % (k, st))
         if tot["skipped_ref"] * 4 > nscn + nrand:
